@@ -769,6 +769,9 @@ def restoring_divider(x, y, start=0):
     j = _extend_memory(mem, a_mem, j)
     b, b_mem = abs_(y, j)
     j = _extend_memory(mem, b_mem, j)
+    # the divider sizes its register by the dividend:
+    # make the operands equally wide
+    a, b = equalize_width(a, b)
     # divide
     quo, rem, div_mem = _restoring_divider(a, b, start=j)
     j = _extend_memory(mem, div_mem, j)
